@@ -27,7 +27,7 @@ def step (line : String) : String :=
     else if op == "genxml" || op == "xmlenc" then GenXmlOps.run parts
     else if op == "export" then ExportOps.run parts
     else if op == "editor" then EditorOps.run parts
-    else if op.startsWith "capi." || op == "rpu.ops3" || op == "rpu.ops3json" then CapiOps.run parts
+    else if op.startsWith "capi." || op == "rpu.ops3" || op == "rpu.ops3json" || op == "rpu.filelist" then CapiOps.run parts
     else if op == "rpu.ops" || op == "rpu.opswf" then EditOps.run parts
     else if op.startsWith "c08." then RpuOps.run parts
     else if op.startsWith "rpu." || op.startsWith "nalu." then RpuOps.run parts
